@@ -262,6 +262,26 @@ BUILTIN_EXC = ('KeyError', 'IndexError', 'Exception', 'KeyboardInterrupt', 'Valu
                'AssertionError', 'NotImplementedError', 'AttributeError')
 
 
+class ObligationList(list):
+    """the obligations of one function.  Slice mode retracts the obligations of a statement it could not execute
+    (`del obligations[mark:]`); the facts ASSUMED after those obligations (a callee precondition that was asserted and then
+    assumed, the callee's postcondition, `cond` after a safety check) must go with them -- otherwise the site inside the
+    statement, re-evaluated on its own, is "proved" from the assumption of the very obligation that was retracted."""
+
+    def __init__(self, fv):
+        super().__init__()
+        self._fv = fv
+
+    def __delitem__(self, idx):
+        if isinstance(idx, slice):
+            gone = self[idx]
+            if gone:
+                n = min(getattr(o, 'nfacts', len(self._fv.facts)) for o in gone)
+                if n < len(self._fv.facts):
+                    del self._fv.facts[n:]
+        super().__delitem__(idx)
+
+
 class Contract_stub:
     def __init__(self, modifies):
         self.modifies = modifies
@@ -284,7 +304,7 @@ class FuncVerifier:
         self.enclosing = enclosing or []
         self.ghost = ghost
         self.facts = []
-        self.obligations = []
+        self.obligations = ObligationList(self)
         self.binders = []            # stack of (vars, guard) for quantified contexts
         self.bound_env = []          # stack of dict name -> SV
         self.old_state = None
@@ -705,13 +725,21 @@ class FuncVerifier:
         of unknown code without sites) is an arbitrary value -- the display still has its length"""
         if spec or not self.in_slice() or self.binders:
             return self.ev(e, st, spec)
-        if any(isinstance(n, ast.Call) for n in ast.walk(e)):
-            return self.ev(e, st, spec)        # calls may have effects: the statement-level abstraction handles them
-        no = len(self.obligations)
+        has_call = any(isinstance(n, ast.Call) for n in ast.walk(e))
+        no, snap_env, snap_heap, snap_pc = len(self.obligations), dict(st.env), dict(st.heap), st.pc
         try:
             return self.ev(e, st, spec)
-        except (Unsupported, EngineError):
+        except (Unsupported, EngineError) as exc:
             del self.obligations[no:]
+            if has_call:
+                # the element may have called unknown code before it failed: arbitrary heap afterwards; a site inside it
+                # must be evaluable on its own (probe_sites raises otherwise)
+                st.env, st.heap, st.pc = snap_env, snap_heap, snap_pc
+                from .slicing import havoc_state, probe_sites
+                probe_sites(self, ast.Expr(value=e), st, 'element / appended value: %s' % str(exc)[:100])
+                self.abstracted.append(dict(line=getattr(e, 'lineno', 0), stmt='element ' + ast.unparse(e)[:80],
+                                            reason=str(exc)[:160]))
+                havoc_state(self, st, set())
             return self.E.fresh('elt', ANY)
 
     def ev_Tuple(self, node, st, spec):
